@@ -138,3 +138,55 @@ PROPS["C08"] = {
                   "C15 stream (CLI runs)",
     "technique": "Lean 4 proof (sorting erases permutation) + pinned scan of map-iteration sites + repeated-run byte comparison",
 }
+
+PROPS["C17"] = {
+    "gen": [],
+    "lean": ["QV.Props.C17"],
+    "streams": ["c17"],
+    "rule": "each case is a generated class table (1-40 classes; DAGs, diamonds, cycles, self-loops, unknown and non-class "
+            "super names, private/protected supers, duplicate class names, shadowed properties/methods/enums/variants) loaded "
+            "through the real TypeMap/ModuleData::extend, queried exhaustively through the public API (is_derived_from and "
+            "common_base_class for every ordered pair of classes; public_super_classes, get_property, get_public_method, "
+            "get_enum_by_variant, get_type for every class x every member name of the pools plus absent names); the whole "
+            "answer vector is compared with the Lean model (kind=model: exact owners, BFS-order effects, error values) and "
+            "with the Lean specification (kind=spec: graph reachability / declared-by-an-ancestor, owner soundness checked "
+            "against the real is_derived_from); distinct = distinct requests",
+    "exhaustive_note": "besides the random tables, every graph on 2 (quick: 100 tables) resp. 3 (thorough: 4913 tables) classes whose "
+                       "super lists are the ordered selections of at most two names out of the class names and one unknown name "
+                       "is enumerated - all cycles, self-loops, diamonds and dangling references of that size in every listing order",
+    "trusted_base": [
+        "hand-written model of lib/src/typemap/{class,namespace,function,enum_,core,module}.rs (BaseClasses BFS with visited "
+        "set, find_map_self_and_base_classes, is_derived_from, common_base_class, member lookups, sorted method table, "
+        "Property::new/Method::new type resolution through the class scope), tied by the c17 stream",
+        "QV.Spec.GraphOfTable.toGraph: the reading of a table as a graph (shared by the theorems and the spec side of the driver)",
+        "the s-expression reader of the driver and the harness's construction of metatype::Class values from a request",
+    ],
+    "assumptions": [
+        "one module importing the builtins; super-class names are unscoped (no `A::B`) and are not `QString`; a class name "
+        "does not clash with a module-level enum or a primitive type name (requests outside this fragment are answered "
+        "`(unsupported ..)`/`(skip ..)` and counted as skipped)",
+        "member types are `int`/`void` (they resolve in the builtins scope once the class scope has been searched)",
+        "class identity is the class name (all handles are obtained by name; a later class of the same name replaces the earlier one)",
+        "the completeness clauses ('derives from' / 'found' whenever the graph says so, own declaration first) are refuted for "
+        "tables with a reachable unresolved super class (F10); an `Err` answer counts as 'not found' for the property",
+    ],
+    "level_text": "proof (full after the F10 repair 8d2984c; the *_repaired theorems hold for every table incl. dangling references; the pre-repair behaviour is kept as refuted full statements/witnesses): base_classes_terminates proves that the "
+                  "breadth-first walk terminates from every state of every table (fuel-free run relation, unique result, "
+                  "fuel bound never hit) and base_classes_spec that it yields exactly the proper public ancestors, each once; "
+                  "for ALL tables a positive is_derived_from, every member/enum/variant found, and every common base are right "
+                  "(derives_sound, LookupSpec.found_sound, variant_resolves_to_listing_enum, common_base_is_ancestor_of_both), "
+                  "'not found' means nobody declares it, an error means an unresolved reference is reachable; when no unresolved "
+                  "reference is reachable from the class (all tables without dangling names, cyclic or not) derives_iff_reachable, "
+                  "lookup_iff_declared (+ methods, nested enums, variants), lookup_own_first and common_base_exists_iff give the "
+                  "full property; method_table_lookup proves the sorted-table search returns exactly the public methods of that "
+                  "name; the full statements for dangling tables are refuted by kernel-checked witnesses (F10). For the code after "
+                  "the proposed repair (.work/C17.fix.diff, model QV.Model.ClassGraph.Repaired, driver request cg-repaired) the "
+                  "full statements are proved for every table (derives_iff_reachable_repaired, property/method/variant/"
+                  "nested_enum_lookup_repaired, common_base_repaired).",
+    "level_note": "trusted: Lean kernel; the hand-written model tied by the c17 stream (quick: 2100 tables, thorough: 34913 tables, "
+                  "about 450 queries per table, 0 disagreements with the model); the specification's reachability oracle is itself "
+                  "proved correct (ancestors?_spec); F10 (search stopped at the first unresolved super class) was repaired in /repo (fix: 8d2984c); "
+                  "the model side `cg` is the repaired code (QV.Model.ClassGraphRepaired), witnesses replayed from corpus/C17",
+    "technique": "Lean 4 proof (invariants of the BFS with visited set against inductive reachability; certified saturation "
+                 "oracle) + refutation witnesses + exhaustive-per-table differential correspondence on generated class graphs",
+}
